@@ -24,6 +24,10 @@ type lbid struct {
 	ledger  ledgerID
 }
 
+func (l lbid) tag() string {
+	return string([]byte{'b', '0' + byte(l.backend), 'l', '0' + byte(l.ledger)})
+}
+
 func (l lbid) BackendID() uint32        { return l.backend }
 func (l lbid) LedgerID() multi.LedgerID { return l.ledger }
 
@@ -49,12 +53,14 @@ type world struct {
 }
 
 func (w *world) enter(l lbid, m string) {
+	rt.SchedPoint("enter " + l.tag() + " " + m)
 	w.mu.Lock()
 	w.log = append(w.log, event{l, m, true})
 	w.mu.Unlock()
 }
 
 func (w *world) leave(l lbid, m string) error {
+	rt.SchedPoint("leave " + l.tag() + " " + m)
 	w.mu.Lock()
 	defer w.mu.Unlock()
 	w.log = append(w.log, event{l, m, false})
